@@ -50,8 +50,10 @@ def confirm(prop, src, sid):
     dst = os.path.join(VERIF, "seeded", sid)
     wt = worktree(sid)
     try:
-        demo = os.path.join(src, "demo.py")
+        demo_src = os.path.join(src, "demo.py")
         patch = os.path.join(src, "patch.diff")
+        demo = os.path.join(wt, "_seeded_demo.py")       # run from inside the checkout so that `import quara` finds it
+        shutil.copy(demo_src, demo)
         rc0, out0 = sh([PY, demo], cwd=wt, timeout=1800)
         rca, outa = sh(["git", "apply", patch], cwd=wt)
         assert rca == 0, "patch does not apply: " + outa
@@ -67,7 +69,7 @@ def confirm(prop, src, sid):
             return 1
         os.makedirs(dst, exist_ok=True)
         shutil.copy(patch, os.path.join(dst, "patch.diff"))
-        shutil.copy(demo, os.path.join(dst, "demo.py"))
+        shutil.copy(demo_src, os.path.join(dst, "demo.py"))
         notes = os.path.join(src, "notes.md")
         if os.environ.get("SEEDED_NOCHECK"):
             rc, lines, wall = None, ["check not run yet (property's check still being built)"], 0
